@@ -41,6 +41,12 @@ import (
 
 const classStaleEntry = "C08-lib-from-stale-entry-of-abandoned-branch"
 
+// the roll-forward of a reorganisation failed (a block of the new branch does not execute): the chain service puts the Status back
+// on the old best block, but the LIB and the proposed entries the Status picked up on the branch that was NOT adopted stay. Tagged
+// by mechanism: the reported LIB (or the confirming block of the entry it was taken from) is a block that was rolled forward in a
+// reorganisation that failed in this session.
+const classFailedRF = "C08-lib-kept-from-failed-rollforward"
+
 // ---------------------------------------------------------------- producers, blocks
 
 type producer struct {
@@ -330,6 +336,7 @@ type node struct {
 	ops      []string
 	taint    bool           // a LIB taken from a stale entry was reported (known class): later consequences on this node carry it
 	updated  map[*sblk]bool // every block the chain service ever passed to Status.Update
+	failedRF map[*sblk]bool // blocks rolled forward in a reorganisation whose roll-forward failed
 }
 
 func (b *sblk) isAncestorOf(x *sblk) bool {
@@ -342,7 +349,7 @@ func (b *sblk) isAncestorOf(x *sblk) bool {
 func (w *world) newNode(self int) *node {
 	w.nnode++
 	n := &node{w: w, dir: filepath.Join(w.root, fmt.Sprintf("n%d", w.nnode)), known: map[*sblk]bool{}, declared: map[*sblk]bool{},
-		tsOK: map[*sblk]bool{}, updated: map[*sblk]bool{}}
+		tsOK: map[*sblk]bool{}, updated: map[*sblk]bool{}, failedRF: map[*sblk]bool{}}
 	os.RemoveAll(n.dir)
 	for _, sub := range []string{"chain", "state"} {
 		copyFile(filepath.Join(w.tmpl, sub, "database"), filepath.Join(n.dir, sub, "database"))
@@ -496,6 +503,9 @@ func (n *node) shape(e event) string {
 				n.w.run.Count("call Update: roll-forward")
 			case b == n.tip():
 				// failed roll-forward: the Status is put back on the old best block (the number index was never swapped)
+				for _, x := range n.ph.pend {
+					n.failedRF[x] = true
+				}
 				n.ph = phase{kind: "synced"}
 				n.w.run.Count("call Update: old tip restored (failed roll-forward)")
 			default:
@@ -658,11 +668,16 @@ func (n *node) check(arrived *sblk) {
 					}
 				}
 				if !p.Nil && p.Plib.Hash == lib.Hash && by != nil && !n.onMain(by) {
-					class = classStaleEntry
+					if class == "" {
+						class = classStaleEntry
+					}
+					if n.failedRF[by] {
+						class = classFailedRF
+					}
 				}
 			}
-			if class != "" {
-				n.taint = true
+			if lb != nil && n.failedRF[lb] {
+				class = classFailedRF
 			}
 			w.run.Count("lib-off-chain class=" + class)
 			w.run.FailKnown(fmt.Sprintf("reported LIB %s is not a block of the node's main chain (after %s; main chain has %s at %d)",
@@ -696,10 +711,8 @@ func (n *node) check(arrived *sblk) {
 		n.maxLib, n.maxLibNo = lb, lib.No
 	}
 	if n.maxLib != nil && !n.onMain(n.maxLib) {
+		// maxLib is only ever a block that was on the main chain when reported: its replacement has no known mechanism
 		class := ""
-		if n.taint {
-			class = classStaleEntry
-		}
 		w.run.FailKnown(fmt.Sprintf("block %s (no %d), reported as LIB earlier while on the main chain, was replaced (now %s)", n.maxLib.name, n.maxLibNo,
 			nameAt(n.main, n.maxLibNo)), class, n.replay())
 	}
